@@ -18,8 +18,10 @@ def slashnormalize (s : Str) : Str :=
   | [] => [47]
   | c :: cs => if c = 47 then c :: cs else 47 :: c :: cs
 
-/-- `BaseHandler.isrequestsecure`: no forbidden substring anywhere -/
-def secureB (forbidden : List Str) (s : Str) : Bool := forbidden.all fun f => !isInfixB f s
+/-- `BaseHandler.isrequestsecure`: no forbidden substring anywhere, and the last component is
+    not a single dot (`not selector.endswith("/.")`) -/
+def secureB (forbidden : List Str) (s : Str) : Bool :=
+  (forbidden.all fun f => !isInfixB f s) && !isSuffixB [47, 46] s
 
 /-- does `.+://` match at the start of `s`: at least one non-newline char then `://`,
     everything before the `://` free of `\n` (regex `.` does not match newline) -/
